@@ -329,6 +329,10 @@ func exploreScenario(r *report.Run, sc *e3Scenario, maxBound int, deadline time.
 		}
 		if d.Truncated {
 			st.Truncated = true
+			if phases > maxBound+1 {
+				ph = maxBound // a cap in a bounded phase does not cancel the unbounded one
+				continue
+			}
 			break
 		}
 		st.BoundCompleted = bound
